@@ -54,8 +54,9 @@ def check(ctx):
     c13.check_read_to_value(sub, "R-2")
     from rules import extractors as _ex
     _ex.check_extractors(ctx.under("R-2", "extractors"), "R-2", only={"try_as_tag", "try_as_array"})     # the tag handed to the comparison is the item's own
-    c13._check_from_tagged(sub, prog.fn(TSER + "::from_tagged_slice"))
-    c13._check_to_vec(sub, prog.fn(TSER + "::to_tagged_vec"), tagged=True)
+    pall = prog.view("all")       # a default delegating to another un-overridden default is judged as one function
+    c13._check_from_tagged(sub, pall.fn(TSER + "::from_tagged_slice"))
+    c13._check_to_vec(sub, pall.fn(TSER + "::to_tagged_vec"), tagged=True)
 
     # R-3
     ta = prog.fn(TRY_ARRAY)
@@ -96,7 +97,11 @@ def check(ctx):
         # and nothing touches the argument before the gate
         if ok:
             first_calls = [bb for bb, t in f.calls() if f.cfg.dominates(bb, gate) and bb != gate]
-            ok = all(callee_is(f, b, (TRY_ARRAY,)) for b in first_calls)
+            # (a call that does not see the argument at all - `3..=3` evaluated before the call it is handed to - touches nothing)
+            from lib.prov import subterms
+            def _blind(b):
+                return not any(x == ("param", 0) for a in f.blocks[b]["term"].get("args", []) for x in subterms(pv.operand_term(a, b, "term")))
+            ok = all(callee_is(f, b, (TRY_ARRAY,)) or _blind(b) for b in first_calls)
         ctx.ob("R-3", "untagged-starts-with-array:%s" % ty, bool(ok),
                "%s::from_cbor_value passes its argument directly to try_as_array()? before anything else" % ty, where=f.span)
 
